@@ -21,38 +21,44 @@ Inductive stage := HS | RHS | RHF | RBS | RBF | SHS | SHF | WS | WF | HF.
 Inductive ev :=
 | TStart
 | Handled (i : nat)
-| TFinish (req : option nat) (stages : list stage).   (* req = the request whose data the finish carries *)
+| TFinish (req : option nat) (stages : list stage) (err : bool).
+  (* req = the request whose data the finish carries; err = the trace info holds an error (Stats().Error() != nil) *)
 
 Record st := {
   started : bool;          (* traceStarted *)
   stack : list stage;      (* eventsToTrigger: finish events still to record *)
   rec : list stage;        (* events recorded in the trace info since the last reset, oldest first *)
   cur : option nat;        (* request currently held by ctx.Request (None after a reset) *)
+  serr : bool;             (* the stats object of the trace info holds an error (SetError since the last Reset) *)
   out : list ev            (* tracer calls and handler runs, oldest first *)
 }.
 
 Definition record (s : st) (e : stage) : st :=
-  {| started := started s; stack := stack s; rec := rec s ++ [e]; cur := cur s; out := out s |}.
+  {| started := started s; stack := stack s; rec := rec s ++ [e]; cur := cur s; serr := serr s; out := out s |}.
 Definition push (s : st) (e : stage) : st :=
-  {| started := started s; stack := e :: stack s; rec := rec s; cur := cur s; out := out s |}.
+  {| started := started s; stack := e :: stack s; rec := rec s; cur := cur s; serr := serr s; out := out s |}.
 (* `if last := eventsToTrigger.pop(); last != nil { last(...) }` *)
 Definition pop (s : st) : st :=
   match stack s with
   | [] => s
-  | e :: r => {| started := started s; stack := r; rec := rec s ++ [e]; cur := cur s; out := out s |}
+  | e :: r => {| started := started s; stack := r; rec := rec s ++ [e]; cur := cur s; serr := serr s; out := out s |}
   end.
 Definition emit (s : st) (e : ev) : st :=
-  {| started := started s; stack := stack s; rec := rec s; cur := cur s; out := out s ++ [e] |}.
+  {| started := started s; stack := stack s; rec := rec s; cur := cur s; serr := serr s; out := out s ++ [e] |}.
 Definition do_start (s : st) : st :=
   let s := record s HS in
-  {| started := true; stack := stack s; rec := rec s; cur := cur s; out := out s ++ [TStart] |}.
-Definition do_finish (s : st) : st :=
-  let s := record s HF in emit s (TFinish (cur s) (rec s)).
+  {| started := true; stack := stack s; rec := rec s; cur := cur s; serr := serr s; out := out s ++ [TStart] |}.
+(* Controller.DoFinish(ctx, c, err): `if err != nil { Stats().SetError(err) }`, HTTPFinish recorded, tracers' Finish called.
+   e = Serve passes a non-nil error (shouldRecordInTraceError) *)
+Definition do_finish (s : st) (e : bool) : st :=
+  let s := record s HF in
+  let s := {| started := started s; stack := stack s; rec := rec s; cur := cur s; serr := serr s || e; out := out s |} in
+  emit s (TFinish (cur s) (rec s) (serr s)).
 Definition set_cur (s : st) (c : option nat) : st :=
-  {| started := started s; stack := stack s; rec := rec s; cur := c; out := out s |}.
+  {| started := started s; stack := stack s; rec := rec s; cur := c; serr := serr s; out := out s |}.
 (* ctx.ResetWithoutConn(): request and trace info are reset *)
 Definition reset_ctx (s : st) : st :=
-  {| started := started s; stack := stack s; rec := []; cur := None; out := out s |}.
+  {| started := started s; stack := stack s; rec := []; cur := None; serr := false; out := out s |}.
 
 (* the deferred epilogue *)
 Fixpoint pop_all (fuel : nat) (s : st) : st :=
@@ -60,11 +66,12 @@ Fixpoint pop_all (fuel : nat) (s : st) : st :=
   | O => s
   | S f => match stack s with [] => s | _ => pop_all f (pop s) end
   end.
-Definition epilogue (s : st) : st :=
+(* e: Serve returns an error that shouldRecordInTraceError lets through (not nil, idle timeout, hijacked, short connection) *)
+Definition epilogue (s : st) (e : bool) : st :=
   let s := pop_all (S (length (stack s))) s in
-  if started s then do_finish s else s.
+  if started s then do_finish s e else s.
 
-Inductive step_result := Continue (s : st) | Return (s : st).
+Inductive step_result := Continue (s : st) | Return (s : st) (e : bool).
 
 (* one loop iteration on request number i with the given outcome *)
 Definition iteration (i : nat) (o : outcome) (s : st) : step_result :=
@@ -73,12 +80,12 @@ Definition iteration (i : nat) (o : outcome) (s : st) : step_result :=
   match o with
   | OMalformed =>
       (* ReadHeader failed: the `err == nil` block is skipped; "read body finished" pops *)
-      Return (pop s)
+      Return (pop s) true
   | _ =>
       let s := set_cur s (Some i) in
       let s := push (record (pop s) RBS) RBF in
       match o with
-      | OBodyErr => Return (pop s)
+      | OBodyErr => Return (pop s) true
       | _ =>
           let s := pop s in
           let s := push (record s SHS) SHF in
@@ -86,39 +93,40 @@ Definition iteration (i : nat) (o : outcome) (s : st) : step_result :=
           let s := pop s in
           let s := push (record s WS) WF in
           match o with
-          | OWriteErr => Return s                   (* writeResponse / Flush failed *)
+          | OWriteErr => Return s true              (* writeResponse / Flush failed *)
           | _ =>
               let s := pop s in
               match o with
-              | OHijack | OClose => Return s
+              | OHijack | OClose => Return s false    (* errHijacked / errShortConnection are not recorded *)
               | _ =>
-                  let s := do_finish s in
-                  let s := {| started := false; stack := stack s; rec := rec s; cur := cur s; out := out s |} in
+                  let s := do_finish s false in
+                  let s := {| started := false; stack := stack s; rec := rec s; cur := cur s; serr := serr s; out := out s |} in
                   Continue (reset_ctx s)
               end
           end
       end
   end.
 
-Definition init : st := {| started := false; stack := []; rec := []; cur := None; out := [] |}.
+Definition init : st := {| started := false; stack := []; rec := []; cur := None; serr := false; out := [] |}.
 
-(* the whole connection: requests 1..n then the peer closes / the idle read times out *)
-Fixpoint serve_from (i : nat) (script : list outcome) (s : st) : st :=
+(* the whole connection: requests 1..n, then the peer closes (tmo = false) or the read times out (tmo = true) *)
+Fixpoint serve_from (tmo : bool) (i : nat) (script : list outcome) (s : st) : st :=
   match script with
   | [] =>
       if i =? 1 then
-        (* first iteration, nothing arrives: DoStart, ReadHeader = ErrNothingRead *)
+        (* first iteration, nothing arrives: DoStart, ReadHeader fails.  EOF before the first byte is ErrNothingRead
+           (Serve returns nil); a read timeout is an error like any other (answered and recorded) *)
         let s := do_start s in
         let s := push (record s RHS) RHF in
-        epilogue (pop s)
-      else epilogue s                                   (* idle Peek(4) fails before DoStart *)
+        epilogue (pop s) tmo
+      else epilogue s false                                  (* idle Peek(4) fails before DoStart: errIdleTimeout *)
   | o :: rest =>
       match iteration i o s with
-      | Return s' => epilogue s'
-      | Continue s' => serve_from (S i) rest s'
+      | Return s' e => epilogue s' e
+      | Continue s' => serve_from tmo (S i) rest s'
       end
   end.
-Definition serve (script : list outcome) : list ev := out (serve_from 1 script init).
+Definition serve (tmo : bool) (script : list outcome) : list ev := out (serve_from tmo 1 script init).
 
 (* ---- rendering / parsing for the correspondence check ---- *)
 Definition show_stage (e : stage) : bs :=
@@ -130,7 +138,7 @@ Definition show_ev (e : ev) : bs :=
   match e with
   | TStart => B "S"
   | Handled i => B "H:/r" ++ show_nat i
-  | TFinish r sts => B "F:" ++ show_req r ++ B ":" ++ join (B ",") (map show_stage sts)
+  | TFinish r sts e => B "F:" ++ show_req r ++ B ":" ++ join (B ",") (map show_stage sts) ++ (if e then B ":err" else B ":-")
   end.
 Fixpoint parse_script (s : bs) : list outcome :=
   match s with
@@ -145,4 +153,4 @@ Fixpoint parse_script (s : bs) : list outcome :=
        else []) ++ parse_script r
   end.
 (* outcomes after the first one that ends the connection are never reached *)
-Definition serve_trace (s : bs) : bs := join (B " ") (map show_ev (serve (parse_script s))).
+Definition serve_trace (s : bs) : bs := join (B " ") (map show_ev (serve (existsb (Byte.eqb x54) s) (parse_script s))).
